@@ -10,6 +10,7 @@ pub mod c26;
 pub mod canon;
 pub mod c31;
 pub mod c34;
+pub mod genout;
 pub mod c32;
 pub mod ll;
 pub mod llrun;
